@@ -5,6 +5,7 @@ from __future__ import annotations
 import logging
 from typing import TYPE_CHECKING, Any
 
+from xknx.cemi.const import MAX_NPDU_LENGTH
 from xknx.core.value_reader import ValueReader
 from xknx.dpt import DPTArray, DPTBase, DPTBinary
 from xknx.exceptions import ConversionError
@@ -101,19 +102,29 @@ def _parse_payload(
     value: Any,
     value_type: DPTParsable | type[DPTBase] | None = None,
 ) -> DPTBinary | DPTArray:
-    if isinstance(value, DPTArray | DPTBinary):
+    if isinstance(value, DPTBinary):
         return value
-    if transcoder := _parse_dpt(value_type):
+    if isinstance(value, DPTArray):
+        payload = value
+    elif transcoder := _parse_dpt(value_type):
         return transcoder.to_knx(value)
-    if isinstance(value, int):
+    elif isinstance(value, int):
         return DPTBinary(value)
-    try:
-        payload = DPTArray(value)
-    except TypeError as err:
-        raise ConversionError("Could not parse raw payload", value=str(value)) from err
+    else:
+        try:
+            payload = DPTArray(value)
+        except TypeError as err:
+            raise ConversionError(
+                "Could not parse raw payload", value=str(value)
+            ) from err
     if not payload.value:
         raise ConversionError("Raw payload must not be empty", value=str(value))
     if not all(isinstance(octet, int) for octet in payload.value):
         # DPTArray only checks the range of integers
-        raise ConversionError("Raw payload must consist of octets", value=str(value))
+        raise ConversionError(
+            "Raw payload must consist of octets", value=str(payload.value)
+        )
+    if len(payload.value) > MAX_NPDU_LENGTH - 1:
+        # APCI octet + data is the most a frame can carry
+        raise ConversionError("Raw payload too long", length=len(payload.value))
     return payload
